@@ -5,6 +5,7 @@ Histories of edit / regenerate steps over small projects; every GEN step of a hi
 system-call granularity), each in a fresh clone of the pre-step state.
 """
 import copy
+import os
 import posixpath
 
 from ..common.rng import Rng
@@ -275,6 +276,30 @@ def run_case(case, env):
                 if ch:
                     add([V("untouched", "rerun:touched", "identical re-run changed %s" % ch)], si)
             prev_gen, prev_exit = step, res.exit_status
+            # ---- freshness: what a successful run leaves at the output paths is what the same invocation writes
+            # where no output exists yet (an output kept because "nothing changed" must really be unchanged)
+            if res.exit_status == 0 and relpred and any(p in before.files for p in relpred) and not engine.must_refuse(step):
+                sb.park()
+                try:
+                    sb.clone_in()
+                    for p in relpred:
+                        fp = os.path.join(sb.root, p)
+                        if os.path.islink(fp) or os.path.isfile(fp):
+                            os.unlink(fp)
+                    fr = sb.run(step)
+                    account(fr)
+                    fresh = sb.snap()
+                    sb.drop_clone()
+                finally:
+                    sb.unpark()
+                _bump(probes, "freshness_twins_run")
+                if fr.exit_status == 0:
+                    for p in sorted(relpred):
+                        if fresh.content(p) != after.content(p):
+                            add([V("freshness", "fresh:stale-output", "exit 0, but output %s is not what this invocation generates from the current sources "
+                                   "(kept from an earlier run?): here %s, freshly generated %s\n%s"
+                                   % (p, engine._d(after.content(p)), engine._d(fresh.content(p)),
+                                      __import__("sim.cliworld.c08", fromlist=["_firstdiff"])._firstdiff(fresh.content(p), after.content(p))))], si)
             fps.append(cfg + "|clean|chg=%d|same=%d|exit=%s" % (nchanged, nsame, res.disposition()))
             trace.append({"step": si, "argv": engine.argv_for(step, env, "@BOX@")[3:], "fault": "none", "exit": res.disposition(),
                           "changed_outputs": nchanged})
